@@ -302,6 +302,29 @@ fn main() {
                         }
                         Err(e) => machinery.push(format!("cannot run the sequential part: {}", e)),
                     }
+                    if let Some(rel) = flag(&args, "--rel-bin") {
+                        // same enumeration in a build without debug assertions
+                        match std::process::Command::new(&rel).args(["seqpart", &p, "--tier", tier.name()]).output() {
+                            Ok(outp) => {
+                                let txt = String::from_utf8_lossy(&outp.stdout).to_string();
+                                match txt.lines().find_map(|l| l.strip_prefix("@@ ")).map(serde_json::from_str::<seqprops::SeqOut>) {
+                                    Some(Ok(so)) => seqs.push(so),
+                                    _ => seqs.push(seqprops::SeqOut {
+                                        present: true,
+                                        states: 1,
+                                        transitions: 1,
+                                        violations: vec![seqprops::SeqViol {
+                                            case: "whole enumeration (build without debug assertions)".into(),
+                                            message: format!("the sequential enumeration crashed ({}) in the build without debug assertions while executing the code under test", outp.status),
+                                            replay: json!({"kind": "seq", "part": "crash", "build": "rel", "command": format!("vh seqpart {} --tier {}", p, tier.name())}),
+                                        }],
+                                        ..Default::default()
+                                    }),
+                                }
+                            }
+                            Err(e) => machinery.push(format!("cannot run {}: {}", rel, e)),
+                        }
+                    }
                     if tier == prop::Tier::Thorough {
                         if let Some(ship) = &o.ship_bin {
                             match std::process::Command::new(ship).args(["seqpart", &p, "--tier", "thorough"]).output() {
